@@ -925,3 +925,57 @@ Fixpoint ssh_strings (fuel : nat) (data : bytes) (acc : list bytes) : option (li
   end.
 
 Definition ssh_decode (data : bytes) : option (list bytes) := ssh_strings (S (length data)) data [].
+
+(* ------------------------------------------------------------------ *)
+(* services/ipp/message.go ippMsg.decode and group.go attribGroup.decode: the two loops
+   over services/decoder that walk an IPP body (the service itself is observed in part "sweep",
+   the body cut at every position).  The decoders of the individual values
+   (services/ipp/values.go) are a parameter [vdecode] with the contract used by the termination
+   proof: the data stays, the offset never goes back or past the end, the error sticks. *)
+Record idec := mkD { i_data : bytes; i_off : nat; i_err : bool }.
+
+(* Byte(): one byte, or the error and 0 without moving *)
+Definition i_byte (d : idec) : idec * N :=
+  if (i_off d <? length (i_data d))%nat
+  then (mkD (i_data d) (S (i_off d)) (i_err d), nth (i_off d) (i_data d) 0%N)
+  else (mkD (i_data d) (i_off d) true, 0%N).
+
+(* Seek(-1): one step back, or the error *)
+Definition i_unread (d : idec) : idec :=
+  match i_off d with
+  | O => mkD (i_data d) O true
+  | S o => mkD (i_data d) o (i_err d)
+  end.
+
+Inductive iout := IOk (d : idec) | IErr (d : idec) | IFuel.
+
+Section IppLoops.
+  Variable vdecode : N -> idec -> idec.
+
+  (* attribGroup.decode: for vtag := Byte(); vtag > unsupported-attributes-tag (5); vtag = Byte()
+     { if LastError() != nil return err; v.decode(dec) }; Seek(-1) *)
+  Fixpoint ipp_group (fuel : nat) (d : idec) : iout :=
+    match fuel with
+    | O => IFuel
+    | S f =>
+        let '(d1, vtag) := i_byte d in
+        if (5 <? vtag)%N
+        then if i_err d1 then IErr d1 else ipp_group f (vdecode vtag d1)
+        else IOk (i_unread d1)
+    end.
+
+  (* ippMsg.decode after the header: for dtag := Byte(); dtag != end-of-attributes-tag (3);
+     dtag = Byte() { if LastError() != nil return err; group.decode } *)
+  Fixpoint ipp_groups (fuel : nat) (d : idec) : iout :=
+    match fuel with
+    | O => IFuel
+    | S f =>
+        let '(d1, dtag) := i_byte d in
+        if (dtag =? 3)%N then IOk d1
+        else if i_err d1 then IErr d1
+        else match ipp_group (S f) d1 with
+             | IOk d2 => ipp_groups f d2
+             | r => r
+             end
+    end.
+End IppLoops.
